@@ -21,10 +21,10 @@ TRUSTED_BASE = [
     "Lean 4.33 kernel (thorough tier re-checks the compiled modules with leanchecker)",
     "axioms: propext, Classical.choice, Quot.sound only (audited with #print axioms on every property theorem)",
     "translate/rs2lean.py (narrow Rust->Lean expression translator plus text-level extraction, fails closed naming the item; "
-    "items G1-G17: kernels, blends, windows, loop table, interpolation.rs statements, effect table, scalar formulas of all seven types "
+    "items G1-G18: kernels, blends, windows, loop table, interpolation.rs statements, effect table, scalar formulas of all seven types "
     "incl. loop control / constructors / setters / make_interpolator / FftResampler, wrapper forwarding table, ambient-state "
     "scan, validate_buffers decision list and call sites, sinc.rs, reset table, constructor storage, history carry / input load, "
-    "FFT data movement, provided trait methods, constructor validation)",
+    "FFT data movement, provided trait methods, constructor validation, reported counts of the asynchronous calls)",
     "hand-written Lean model of the state machines, tied to /repo by the correspondence check of this run",
     "harness/ (rv-worker, public API of rubato only), check.py and vlib/ (generator, diff, oracles)",
     "Lean compiler/runtime Float, Float32 for the executable twin (never used by a theorem)",
